@@ -150,6 +150,19 @@ func c12Envelope(c *mc.Ctx, k c12Env, withStream bool) {
 			bad("bufwrite", "BufferWriter.WriteMessageBegin delivered %s, want %s", mc.Hex(sink.Got), mc.Hex(want))
 			return
 		}
+		// a bytes writer over a slice that already holds a frame-size placeholder
+		{
+			target := append(make([]byte, 0, 8), 0xf1, 0xf2, 0xf3, 0xf4)
+			pw := bufiox.NewBytesWriter(&target)
+			bwp := thrift.NewBufferWriter(pw)
+			bwp.WriteMessageBegin(name, k.Type, k.Seq)
+			pw.Flush()
+			bwp.Recycle()
+			if !bytes.Equal(target, append([]byte{0xf1, 0xf2, 0xf3, 0xf4}, want...)) {
+				bad("bufwrite-bytes-writer-prefix", "BufferWriter over a bytes writer whose slice already held 4 bytes produced %s, want those 4 bytes followed by %s", mc.Hex(target), mc.Hex(want))
+				return
+			}
+		}
 		// two flush cycles through ONE bytes-backed writer over a small caller buffer, with different headers
 		{
 			target := make([]byte, 0, 16)
@@ -290,7 +303,12 @@ func c12Marshal(c *mc.Ctx, k c12Msg) {
 			}
 			b = ref.Encode(ref.MessageBegin(nil, k.Method, k.Type, k.Seq), &st)
 		} else {
-			b, err = thrift.MarshalFastMsg(k.Method, k.Type, k.Seq, c11Codec(k.Pay))
+			codec := c11Codec(k.Pay)
+			if e, isErr := codec.(error); isErr && len(k.Method)%2 == 1 {
+				_ = e.Error() // the exception was logged before it is sent: that changes nothing
+				_ = fmt.Sprintf("%v %s", e, e)
+			}
+			b, err = thrift.MarshalFastMsg(k.Method, k.Type, k.Seq, codec)
 			if err != nil {
 				bad("marshal-error", "MarshalFastMsg: %v", err)
 				return
@@ -580,6 +598,7 @@ func c12Run(c *mc.Ctx) {
 		{Kind: "baseresp", S: [3]string{"msg"}, I: -5, HasMap: true},
 		{Kind: "exception", S: [3]string{"boom"}, I: 6},
 		{Kind: "exception", S: [3]string{""}, I: -1},
+		{Kind: "exception", S: [3]string{""}, I: 999},
 		{Kind: "exception", S: [3]string{string(c01Str(5000))}, I: 0x01020304},
 		// the other exception kinds are FastCodecs too and are sent as EXCEPTION payloads (e.g. the error a stream reader
 		// returned, forwarded to the peer)
